@@ -10,3 +10,6 @@ import PyCliffordModel.Model.Poly
 import PyCliffordModel.Spec.Ket
 import PyCliffordModel.Proofs.Algebra
 import PyCliffordModel.Properties.C01
+import PyCliffordModel.Spec.Maps
+import PyCliffordModel.Proofs.Rotate
+import PyCliffordModel.Properties.C02
